@@ -254,7 +254,15 @@ func (e *Exec) call(fn *ssa.Function, fc *FuncContract, st *State, x *ssa.Call) 
 	} else {
 		fv = e.val(st, x.Call.Value)
 	}
-	return e.doCall(fn, fc, st, &x.Call, fv, args, x, x)
+	cont, ex := e.doCall(fn, fc, st, &x.Call, fv, args, x, x)
+	if cont {
+		if callee := x.Call.StaticCallee(); callee != nil {
+			e.recordRet(st, callee.Name(), x)
+		} else if x.Call.IsInvoke() {
+			e.recordRet(st, x.Call.Method.Name(), x)
+		}
+	}
+	return cont, ex
 }
 
 func (e *Exec) setResult(st *State, dst ssa.Value, v Val) {
@@ -284,6 +292,7 @@ func (e *Exec) doCall(fn *ssa.Function, fc *FuncContract, st *State, cc *ssa.Cal
 	}
 	if cc.IsInvoke() {
 		e.check(st, "nil", "invoke:"+e.srcText(cc.Value.Pos())+"."+cc.Method.Name(), fmt.Sprintf("(not (= (i-tag %s) 0))", fv.S), pos)
+		e.countCall(st, cc.Method.Name())
 		// interface method contract?
 		if ic := e.eng.ifaceContract(cc); ic != nil {
 			all := append([]Val{fv}, args...)
@@ -303,6 +312,9 @@ func (e *Exec) doCall(fn *ssa.Function, fc *FuncContract, st *State, cc *ssa.Cal
 		return true, nil
 	}
 	callee := cc.StaticCallee()
+	if callee != nil {
+		e.countCall(st, callee.Name())
+	}
 	if callee == nil && fv.Fn != nil {
 		callee = fv.Fn
 		args = append(append([]Val(nil), args...))
@@ -533,6 +545,7 @@ func (e *Exec) argKeys(a Val, keys map[string]string) {
 }
 
 func (e *Exec) havocKeys(st *State, keys map[string]string, all bool) {
+	var havocked []string
 	if all {
 		for k, s := range e.memSort {
 			if strings.HasPrefix(k, "L|") || strings.HasPrefix(k, "IT|") || k == "top" || strings.HasPrefix(k, "ghost|") {
@@ -546,12 +559,16 @@ func (e *Exec) havocKeys(st *State, keys map[string]string, all bool) {
 		srt := keys[k]
 		e.memGet(st, k, srt) // make sure the entry value exists (for old())
 		st.mem[k] = e.sc.fresh("hv."+k, srt)
+		havocked = append(havocked, k)
 	}
 	// allocation may have happened
 	t := e.top(st)
 	nt := e.sc.fresh("top", "Int")
 	e.sc.assert(imp(st.pc, fmt.Sprintf("(>= %s %s)", nt, t)))
 	st.mem["top"] = nt
+	for _, k := range havocked {
+		e.touch(st, k)
+	}
 }
 
 // ---------- builtins ----------
@@ -644,18 +661,31 @@ func (e *Exec) mapStoreGuard(st *State, mt *types.Map, m, key string) {
 }
 
 func (e *Exec) appendOp(st *State, cc *ssa.CallCommon, args []Val, dst ssa.Value) {
-	s := args[0]
-	t := args[1]
 	sl := cc.Args[0].Type().Underlying().(*types.Slice)
-	k, srt := e.elemKey(sl.Elem())
+	lits, n := e.varargElems(st, cc.Args[1])
+	var litv []string
+	if lits != nil {
+		litv = lits[:n]
+	}
+	res := e.appendVals(st, sl.Elem(), args[0], args[1], isString(cc.Args[1].Type()), litv)
+	e.setResult(st, dst, Val{T: cc.Args[0].Type(), S: res})
+}
+
+// appendVals: the model of append(s, t...) (or of the literal elements lits):
+// a fresh backing array that is a copy of the old one (same offset) with the
+// new elements written after the old length.
+func (e *Exec) appendVals(st *State, elem types.Type, s, t Val, tIsString bool, lits []string) string {
+	k, srt := e.elemKey(elem)
 	m := e.memGet(st, k, srt)
 	idx := e.sc.idx()
-	es := e.sc.sortOf(sl.Elem())
-	// how many elements are appended, and where do they come from?
+	es := e.sc.sortOf(elem)
 	var tlen, tarr, toff string
-	if isString(cc.Args[1].Type()) {
+	switch {
+	case lits != nil:
+		tlen = e.sc.idxLit(int64(len(lits)))
+	case tIsString:
 		tlen, tarr, toff = "(str-len "+t.S+")", "(str-arr "+t.S+")", "(str-off "+t.S+")"
-	} else {
+	default:
 		tlen, tarr, toff = "(s-len "+t.S+")", fmt.Sprintf("(select %s (s-base %s))", m, t.S), "(s-off "+t.S+")"
 	}
 	slen, soff := "(s-len "+s.S+")", "(s-off "+s.S+")"
@@ -663,14 +693,11 @@ func (e *Exec) appendOp(st *State, cc *ssa.CallCommon, args []Val, dst ssa.Value
 	// assumption (stated in the evidence): a slice never grows beyond 2^40 elements
 	e.assume(st, e.le(nlen, e.sc.idxLit(maxLen)))
 	ref := e.allocRef(st)
-	// The new backing array is a copy of the old one (same offset) with the
-	// appended elements written after the old length. If the appended slice
-	// is a short array literal (varargs), the stores are explicit (QF).
 	oldArr := fmt.Sprintf("(select %s (s-base %s))", m, s.S)
 	var newArr string
-	if lits, n := e.varargElems(st, cc.Args[1]); lits != nil {
+	if lits != nil {
 		newArr = oldArr
-		for i := 0; i < n; i++ {
+		for i := range lits {
 			newArr = fmt.Sprintf("(store %s %s %s)", newArr, e.add(e.add(soff, slen), e.sc.idxLit(int64(i))), lits[i])
 		}
 	} else {
@@ -682,10 +709,11 @@ func (e *Exec) appendOp(st *State, cc *ssa.CallCommon, args []Val, dst ssa.Value
 			idx, e.le(e.sc.idxLit(0), "k"), e.lt("k", tlen), na, e.add(start, "k"), tarr, e.add(toff, "k"), na, e.add(start, "k")))
 		newArr = na
 	}
+	m = e.memGet(st, k, srt)
 	e.memSet(st, k, srt, fmt.Sprintf("(store %s %s %s)", m, ref, newArr))
 	nc := e.sc.fresh("appcap", idx)
 	e.assume(st, and(e.le(nlen, nc), e.le(nc, e.sc.idxLit(maxLen+maxLen))))
-	e.setResult(st, dst, Val{T: cc.Args[0].Type(), S: e.sc.define("app", "Slice", fmt.Sprintf("(mk-slice %s %s %s %s)", ref, soff, nlen, nc))})
+	return e.sc.define("app", "Slice", fmt.Sprintf("(mk-slice %s %s %s %s)", ref, soff, nlen, nc))
 }
 
 // varargElems recognises `append(s, a, b, c)`: the second argument is a slice
@@ -743,3 +771,46 @@ func (e *Exec) copyOp(st *State, cc *ssa.CallCommon, args []Val, dst ssa.Value) 
 }
 
 var _ = token.NoPos
+
+// countCall maintains the ghost counter <name>_calls for functions/methods the
+// contract under verification asks to count (`count_calls A B ...`): usable in
+// postconditions ("Encode is called iff the compression flag is set").
+// recordRet stores the first result of a counted call in the ghost <name>_ret0.
+func (e *Exec) recordRet(st *State, name string, dst ssa.Value) {
+	if e.fc == nil || e.curFn != e.fn || dst == nil {
+		return
+	}
+	for _, cl := range e.fc.Lists["count_calls"] {
+		for _, n := range strings.Fields(cl.Expr) {
+			if n != name {
+				continue
+			}
+			v, ok := st.vals[dst]
+			if !ok {
+				continue
+			}
+			if v.Tup != nil && len(v.Tup) > 0 {
+				v = v.Tup[0]
+			}
+			if v.A != nil || v.Fn != nil || v.Tup != nil || v.S == "" {
+				continue
+			}
+			e.ghostGet(st, name+"_ret0", v.T, e.sc.zero(v.T))
+			e.ghostSet(st, name+"_ret0", v.T, v.S)
+		}
+	}
+}
+
+func (e *Exec) countCall(st *State, name string) {
+	if e.fc == nil || e.curFn != e.fn {
+		return
+	}
+	for _, cl := range e.fc.Lists["count_calls"] {
+		for _, n := range strings.Fields(cl.Expr) {
+			if n == name {
+				cur := e.ghostGet(st, name+"_calls", tInt, e.sc.idxLit(0))
+				e.ghostSet(st, name+"_calls", tInt, e.add(cur.S, e.sc.idxLit(1)))
+			}
+		}
+	}
+}
